@@ -17,7 +17,7 @@ from vf.ref import render as R
 ID = "C01"
 RULE = ("case = seeded random UFO (3-14 glyphs, component DAG depth<=5, line/cubic/quadratic "
         "contours, integer/half/dyadic/float/negative/large coordinates, dyadic+mirrored+rotated "
-        "transforms) x UFO library x roundTolerance x cffVersion x optimizeCFF; distinct = sha1 of "
+        "transforms) x UFO library x roundTolerance x cffVersion x optimizeCFF (10 %: with a skipExportGlyphs list of glyphs used as components; contour multisets compared there); distinct = sha1 of "
         "the case description; non-trivial = the font compiled and at least one glyph with a "
         "component or a fractional coordinate was compared against the exact-rational resolver")
 ASSUMPTIONS = [
